@@ -2,7 +2,7 @@
    Only statements; every proof is `exact <lemma>` into C12_Proofs.v / C12_Meaning.v / C12_Select.v / C12_Safe.v. *)
 From Coq Require Import NArith ZArith Bool List.
 From Coq Require Import Permutation.
-From CppUVerif Require Import gen.Gen_C12 lib.Str C13_Model C12_Model C12_Proofs C12_Meaning C12_Select C12_Checked C12_Safe C12_Apply C12_ApplyProofs C12_Examples.
+From CppUVerif Require Import gen.Gen_C12 lib.Str C13_Model C12_Model C12_Proofs C12_Meaning C12_Select C12_Checked C12_Safe C12_Apply C12_ApplyProofs C12_Seq C12_SeqProofs C12_Examples.
 Import ListNotations.
 Local Open Scope N_scope.
 
@@ -185,10 +185,110 @@ Theorem C12_apply_meets_spec : forall c, apply_ok c (apply c) = true.
 Proof. exact apply_meets_spec. Qed.
 Print Assumptions C12_apply_meets_spec.
 
-(* the executable oracle used on the implementation's observations (parse part and applied part) accepts every observation of the model *)
-Theorem C12_run_meets_spec : forall tm argv opts, valid tm argv = true -> xspec tm argv opts (xrun tm argv) = true.
+(* the executable oracle used on the implementation's observations of ONE vector (parse part and applied part) accepts every observation of the model *)
+Theorem C12_vector_meets_spec : forall tm argv opts, valid tm argv = true -> xspec tm argv opts (xrun tm argv) = true.
 Proof. exact xrun_meets_spec. Qed.
+Print Assumptions C12_vector_meets_spec.
+
+(* --------------------------------------------------------------------------------------------------------------
+   SEQUENCES of vectors handed to the static entry point CommandLineTestRunner::RunAllTests(ac, av) in one process on the current registry
+   (C12_Seq.v): the plugin chain and the registry are state across the calls.
+   -------------------------------------------------------------------------------------------------------------- *)
+(* the oracle of both scenario kinds (one vector; a sequence of vectors with the user's plugins and failing tests) accepts every observation
+   of the model.  For a sequence the oracle asks: every call came back; a rejected vector printed exactly usage / help and ran nothing; help
+   only for a vector that has the argument -h; a vector that spells documented options is rejected / accepted and run as documented; a vector that is one -p<x> is accepted exactly when a
+   plugin of the user takes it; after every call no plugin of the runner is installed and the user's plugins are there as before; the same
+   vector later in the sequence has the same outcome *)
+Theorem C12_run_meets_spec : forall s, yvalid s = true -> yspec s (yrun s) = true.
+Proof. exact yrun_meets_spec. Qed.
 Print Assumptions C12_run_meets_spec.
+
+(* every call returns: the model of a call is a total function, a sequence gives one observation per vector *)
+Theorem C12_seq_every_call_returns : forall tm mask vs st, length (run_calls tm mask st vs) = length vs.
+Proof. exact run_calls_length. Qed.
+Print Assumptions C12_seq_every_call_returns.
+
+(* a call leaves the plugin chain as it found it -- vector accepted or rejected, tests failing or not, nothing selected, too many
+   repetitions: WHATEVER the result (no user plugin carries one of the two names the runner removes by) *)
+Theorem C12_seq_plugins_restored : forall tm mask st v, forallb not_runners (st_plugins st) = true ->
+  st_plugins (snd (one_call tm mask st v)) = st_plugins st.
+Proof. exact plugins_restored. Qed.
+Print Assumptions C12_seq_plugins_restored.
+
+(* in general (a user plugin named like the runner's): the chain is unchanged, or it is the chain without those two names -- a call never
+   leaves anything of its own behind *)
+Theorem C12_seq_plugins_never_added : forall tm mask st v,
+  st_plugins (snd (one_call tm mask st v)) = st_plugins st \/
+  st_plugins (snd (one_call tm mask st v)) = without_runner_names (st_plugins st).
+Proof. exact plugins_never_added. Qed.
+Print Assumptions C12_seq_plugins_never_added.
+
+(* in every call of every sequence the observer finds the user's plugins, in their order, and nothing else: plugin count back to what it was *)
+Theorem C12_seq_restores_in_every_call : forall tm mask ps vs, name_clash ps = false ->
+  forall o, In o (run_calls tm mask (initial_state ps) vs) ->
+  match o with CCall _ _ _ tags => tags = initial_tags ps | CBig => True end.
+Proof. exact restores_in_every_call. Qed.
+Print Assumptions C12_seq_restores_in_every_call.
+
+Theorem C12_seq_plugins_after_any_sequence : forall ps tm mask vs, name_clash ps = false ->
+  st_plugins (end_state tm mask (initial_state ps) vs) = user_plugins ps.
+Proof. exact plugins_after_any_sequence. Qed.
+Print Assumptions C12_seq_plugins_after_any_sequence.
+
+(* a vector is accepted / rejected, and runs the same tests (IGNORE_TESTs aside: the registry's run-ignored switch is sticky), whatever
+   calls were made before it *)
+Theorem C12_seq_independent_of_earlier_calls : forall ps tm mask vs1 vs2 v, name_clash ps = false ->
+  same_outcome_prop (fst (one_call tm mask (end_state tm mask (initial_state ps) vs1) v))
+                    (fst (one_call tm mask (end_state tm mask (initial_state ps) vs2) v)).
+Proof. exact independent_of_earlier_calls. Qed.
+Print Assumptions C12_seq_independent_of_earlier_calls.
+
+(* every spelling of every sequence of documented options means what the help text says, whatever plugins are installed: a documented
+   option is never handed to the plugin chain *)
+Theorem C12_seq_meaning_any_chain : forall takes tm prog opts argv,
+  forallb opt_ok opts = true -> In argv (render opts) -> parse_p takes tm (prog :: argv) = sem tm opts.
+Proof. exact meaning_p. Qed.
+Print Assumptions C12_seq_meaning_any_chain.
+
+(* ... and so, after ANY sequence of earlier calls and with ANY plugins of the user, a documented vector is rejected with help or accepted
+   and run as documented: the selected tests that are not IGNORE_TESTs, as often as asked, and all of them under -ri; nothing in a list mode *)
+Theorem C12_seq_documented_after_any_sequence : forall ps tm mask vs v opts, spells v opts = true ->
+  let o := fst (one_call tm mask (end_state tm mask (initial_state ps) vs) v) in
+  match sem tm opts with
+  | Reject h => exists tags, o = CCall (if h then PHelp else PUsage) 0 [] tags
+  | Accept c => c_repeat c <= REP_CAP -> exists seeds ran tags, o = CCall PNothing seeds ran tags /\
+                  (list_mode c = true -> ran = []) /\
+                  (list_mode c = false ->
+                     Permutation (List.filter not_ignored ran) (times (N.to_nat (c_repeat c)) (List.filter not_ignored (natural c))) /\
+                     (c_runign c = true -> Permutation ran (times (N.to_nat (c_repeat c)) (natural c))))
+  | Unknown => False
+  end.
+Proof. exact documented_after_any_sequence. Qed.
+Print Assumptions C12_seq_documented_after_any_sequence.
+
+(* a vector that is one plugin option -p<x>, after any sequence of earlier calls: accepted exactly when a plugin of the user takes it *)
+Theorem C12_seq_plugin_option_after_any_sequence : forall ps tm mask vs x a, name_clash ps = false ->
+  is_prefix lit_plugin_option a = true -> (2 < length a)%nat ->
+  exists seeds ran tags, fst (one_call tm mask (end_state tm mask (initial_state ps) vs) [x; a]) =
+    CCall (if existsb (fun q => kind_takes (snd q) a) ps then PNothing else PUsage) seeds ran tags.
+Proof. exact plugin_option_after_any_sequence. Qed.
+Print Assumptions C12_seq_plugin_option_after_any_sequence.
+
+(* the runner that returns early on a non-zero result, before removing its leak plugin (red team C12-2): "every call restores" is false
+   of it; witness: no plugins, the one vector -zz *)
+Theorem C12_seq_early_return_refuted : ~ early_return_restores_stmt.
+Proof. exact early_return_refuted. Qed.
+Print Assumptions C12_seq_early_return_refuted.
+
+(* ties to the one-vector model: the parser with the chain of the one-vector harness is C12_Model.parse; a run on the fresh registry is
+   C12_Apply.runner_run_all_tests *)
+Theorem C12_seq_parse_with_chain : forall tm argv, parse_p plugin_accepts tm argv = parse tm argv.
+Proof. exact parse_p_model. Qed.
+Print Assumptions C12_seq_parse_with_chain.
+
+Theorem C12_seq_run_on_fresh_registry : forall c, fst (run_on c registry0) = runner_run_all_tests c.
+Proof. exact run_on_registry0. Qed.
+Print Assumptions C12_seq_run_on_fresh_registry.
 
 (* --------------------------------------------------------------------------------------------------------------
    THE TRANSLATED SOURCE of CommandLineArguments::parse (gen/Gen_HeapC12.v, regenerated by tools/cxx2heap.py on every run): the AST-level chain of tests is first_match over the (independently, regex-) extracted dispatch table, one loop trip stores the flag / calls the handler of that rule, and the whole loop follows the model's parse_args
